@@ -175,6 +175,7 @@ def run_moving(spec: dict, rec: Recorder) -> None:
             for before in range(0, 6):  # the boundary is crossed by the (before+1)-th read
                 start_ft = bnd - before * step_ticks - 1
                 wit = {"kind": "moving", "boundary_filetime": str(bnd), "level": ["L0", "L1", "L2"][level], "step_ticks": step_ticks, "reads_before_boundary": before}
+                fb = mon.CLOCK.float_reads
                 with mon.CLOCK.at_ns(mon.filetime_to_ns(start_ft, 50), step_ns=step_ticks * 100) as clk:
                     try:
                         blob = dpapi_ng.ncrypt_protect_secret(b"c09-moving", SID, root_key_identifier=RKID, cache=c)
@@ -188,6 +189,10 @@ def run_moving(spec: dict, rec: Recorder) -> None:
                 kid = gkdi.dec_key_identifier(cms.parse(blob)["key_identifier"])
                 got = (kid["l0"], kid["l1"], kid["l2"])
                 shown = {expected(v // 100 + mon.EPOCH_FILETIME) for v in served}
+                if mon.CLOCK.float_reads > fb:
+                    # read as a float: instants within two ulps of a boundary are not distinguishable by the code under test
+                    for v in served:
+                        shown |= float_neighbours(v // 100 + mon.EPOCH_FILETIME)
                 rec.count("moving_clock_identifiers_compared")
                 rec.range("clock_reads_per_protect", len(served))
                 if got not in shown:
